@@ -145,20 +145,28 @@ theorem Good.trans {a : Option Nat} {c1 : Nat} {L : Ledger} {r1 r2 : Vec α × L
     Good a c1 L r2 :=
   ⟨h2.inv, Eff.trans ha h1.eff h2.eff, Nat.le_trans h1.cap h2.cap⟩
 
-theorem resize_good (v : Vec α) (n : Nat) (L : Ledger) (h : v.Inv) (hp : ∀ p, v.blk = some p → p < L.allocs) :
-    Good v.blk v.cap L (v.resize n L) := by
-  refine ⟨resize_inv v n L h, ?_, ?_⟩
-  · obtain ⟨p, hb⟩ := Option.isSome_iff_exists.mp h.blk
-    have h1 := h.len; have h2 := h.le
-    unfold resize
+theorem blk_lt_of_alloc {a : Option Nat} {c : Nat} {L : Ledger} {r : Vec α × Ledger} (ha : ∀ p, a = some p → p < L.allocs)
+    (g : Good a c L r) : ∀ p, r.1.blk = some p → p < r.2.allocs := by
+  intro p hp
+  have := g.eff.mono
+  rcases g.eff.new_src with e | ⟨q, e, hq, hq'⟩
+  · have := ha p (by rw [← e]; exact hp); omega
+  · rw [hp] at e; cases e; exact hq'
+
+theorem resize_good (zero : α) (v : Vec α) (n : Nat) (L : Ledger) (h : v.Inv) (hp : ∀ p, v.blk = some p → p < L.allocs) :
+    Good v.blk v.cap L (v.resize zero n L) := by
+  obtain ⟨p, hb⟩ := Option.isSome_iff_exists.mp h.blk
+  have h1 := h.len; have h2 := h.le
+  refine ⟨resize_inv zero v n L h, ?_, ?_⟩
+  · unfold resize
     simp only [hb]
     split
     · have hc : decide (v.cells.length < v.size) = false := by simp; omega
       simp only [hc, Ledger.flagIf]
       exact Eff.realloc L p (hp p hb) id (fun _ => rfl) (fun _ => rfl) (fun _ => rfl) (fun _ => rfl)
-    · simp only [hb]; exact Eff.refl _ _
-  · obtain ⟨p, hb⟩ := Option.isSome_iff_exists.mp h.blk
-    unfold resize
+    · have hc : decide (v.size < n ∧ v.cells.length < n) = false := by simp; omega
+      simp only [hb, hc, Ledger.flagIf]; exact Eff.refl _ _
+  · unfold resize
     simp only [hb]
     split
     · simp; omega
@@ -167,15 +175,11 @@ theorem resize_good (v : Vec α) (n : Nat) (L : Ledger) (h : v.Inv) (hp : ∀ p,
 theorem mkDefault_good (L : Ledger) : Good none 0 L (mkDefault (α := α) L) :=
   ⟨mkDefault_inv L, Eff.alloc L, Nat.zero_le _⟩
 
-theorem mkDefault_cap (L : Ledger) : (mkDefault (α := α) L).1.cap = 4 := rfl
-
-theorem mkSized_eq (n : Nat) (L : Ledger) :
-    mkSized (α := α) n L = ({ blk := some L.allocs, cells := List.replicate n none, size := n, cap := n }, L.alloc.2) := by
-  simp [mkSized, resize, Ledger.alloc]
-
-theorem mkSized_good (n : Nat) (L : Ledger) : Good none 0 L (mkSized (α := α) n L) := by
-  rw [mkSized_eq]
-  exact ⟨⟨by simp, by simp, by simp⟩, Eff.alloc L, Nat.zero_le _⟩
+theorem mkSized_good (zero : α) (n : Nat) (L : Ledger) : Good none 0 L (mkSized zero n L) := by
+  have hn : ∀ p, (none : Option Nat) = some p → p < L.allocs := by intro p hp; cases hp
+  have g0 : Good none 0 L (({ blk := some L.alloc.1, cells := List.replicate n none, size := 0, cap := n } : Vec α), L.alloc.2) :=
+    ⟨⟨by simp, by simp, by simp⟩, Eff.alloc L, Nat.zero_le _⟩
+  exact Good.trans hn g0 (resize_good zero _ n _ g0.inv (blk_lt_of_alloc hn g0))
 
 theorem copyFrom_good (v o : Vec α) (L : Ledger) (h : v.Inv) (ho : o.Inv) (hs : v.size = o.size) :
     Good v.blk v.cap L (v.copyFrom o L) := by
@@ -192,20 +196,12 @@ theorem store_good (v : Vec α) (i : Nat) (c : Cell α) (L : Ledger) (h : v.Inv)
   simp only [store, hi', if_true]
   exact ⟨⟨h.blk, by simp [h.len], h.le⟩, Eff.refl _ _, Nat.le_refl _⟩
 
-theorem blk_lt_of_alloc {a : Option Nat} {c : Nat} {L : Ledger} {r : Vec α × Ledger} (ha : ∀ p, a = some p → p < L.allocs)
-    (g : Good a c L r) : ∀ p, r.1.blk = some p → p < r.2.allocs := by
-  intro p hp
-  have := g.eff.mono
-  rcases g.eff.new_src with e | ⟨q, e, hq, hq'⟩
-  · have := ha p (by rw [← e]; exact hp); omega
-  · rw [hp] at e; cases e; exact hq'
-
-theorem mkVariadic_good (vs : List α) (L : Ledger) : Good none 0 L (mkVariadic vs L) := by
+theorem mkVariadic_good (zero : α) (vs : List α) (L : Ledger) : Good none 0 L (mkVariadic zero vs L) := by
   have g0 := mkDefault_good (α := α) L
   have hn : ∀ p, (none : Option Nat) = some p → p < L.allocs := by intro p hp; cases hp
-  have g1 := resize_good _ vs.length (mkDefault (α := α) L).2 g0.inv (blk_lt_of_alloc hn g0)
+  have g1 := resize_good zero _ vs.length (mkDefault (α := α) L).2 g0.inv (blk_lt_of_alloc hn g0)
   have g01 := Good.trans hn g0 g1
-  have hs := resize_size _ vs.length (mkDefault (α := α) L).2 g0.inv
+  have hs := resize_size zero _ vs.length (mkDefault (α := α) L).2 g0.inv
   unfold mkVariadic
   simp only []
   rw [storeAll_spec]
@@ -214,52 +210,40 @@ theorem mkVariadic_good (vs : List α) (L : Ledger) : Good none 0 L (mkVariadic 
     simp [List.length_take] at *; omega
   · have := g01.inv.len; have := g01.inv.le; omega
 
-theorem mkCopy_good (o : Vec α) (L : Ledger) (ho : o.Inv) : Good none 0 L (mkCopy o L) := by
+theorem mkCopy_good (zero : α) (o : Vec α) (L : Ledger) (ho : o.Inv) : Good none 0 L (mkCopy zero o L) := by
   have g0 := mkDefault_good (α := α) L
   have hn : ∀ p, (none : Option Nat) = some p → p < L.allocs := by intro p hp; cases hp
-  have g1 := resize_good _ o.size (mkDefault (α := α) L).2 g0.inv (blk_lt_of_alloc hn g0)
+  have g1 := resize_good zero _ o.size (mkDefault (α := α) L).2 g0.inv (blk_lt_of_alloc hn g0)
   have g01 := Good.trans hn g0 g1
-  have hs := resize_size _ o.size (mkDefault (α := α) L).2 g0.inv
+  have hs := resize_size zero _ o.size (mkDefault (α := α) L).2 g0.inv
   exact Good.trans hn g01 (copyFrom_good _ o _ g01.inv ho hs)
 
-theorem mkCopy_cap (o : Vec α) (L : Ledger) : 4 ≤ (mkCopy o L).1.cap := by
-  simp only [mkCopy, copyFrom, mkDefault, resize, Ledger.alloc]
-  by_cases h : 4 < o.size
-  · simp only [h, if_true]; omega
-  · simp only [h, if_false]; omega
-
-theorem mkVariadic_cap (vs : List α) (L : Ledger) (ho : True) : 4 ≤ (mkVariadic vs L).1.cap := by
-  have g0 := mkDefault_good (α := α) L
-  have hn : ∀ p, (none : Option Nat) = some p → p < L.allocs := by intro p hp; cases hp
-  have g1 := resize_good _ vs.length (mkDefault (α := α) L).2 g0.inv (blk_lt_of_alloc hn g0)
-  have hc : 4 ≤ ((mkDefault (α := α) L).1.resize vs.length (mkDefault (α := α) L).2).1.cap := g1.cap
-  unfold mkVariadic
-  simp only []
-  rw [storeAll_spec]
-  · exact hc
-  · have := g1.inv.len; have := g1.inv.le
-    have hs := resize_size _ vs.length (mkDefault (α := α) L).2 g0.inv
-    omega
-
-theorem assign_good (v o : Vec α) (L : Ledger) (h : v.Inv) (ho : o.Inv) (hp : ∀ p, v.blk = some p → p < L.allocs) :
-    Good v.blk v.cap L (assign v o L) := by
-  have g1 := resize_good v o.size L h hp
-  have hs := resize_size v o.size L h
+theorem assign_good (zero : α) (v o : Vec α) (L : Ledger) (h : v.Inv) (ho : o.Inv) (hp : ∀ p, v.blk = some p → p < L.allocs) :
+    Good v.blk v.cap L (assign zero v o L) := by
+  have g1 := resize_good zero v o.size L h hp
+  have hs := resize_size zero v o.size L h
   exact Good.trans hp g1 (copyFrom_good _ o _ g1.inv ho hs)
 
-theorem push_good (v : Vec α) (a : α) (L : Ledger) (h : v.Inv) (hp : ∀ p, v.blk = some p → p < L.allocs) :
-    Good v.blk v.cap L (push v a L) := by
+theorem pushCell_good (zero : α) (v : Vec α) (c : Cell α) (L : Ledger) (h : v.Inv) (hp : ∀ p, v.blk = some p → p < L.allocs) :
+    Good v.blk v.cap L (pushCell zero v c L) := by
   have h1 := h.len; have h2 := h.le
-  unfold push
+  unfold pushCell
   split
-  · have g1 := resize_good v (v.size + 1) L h hp
-    have hs := resize_size v (v.size + 1) L h
+  · have g1 := resize_good zero v (v.size + 1) L h hp
+    have hs := resize_size zero v (v.size + 1) L h
     refine Good.trans hp g1 (store_good _ _ _ _ g1.inv ?_)
     have := g1.inv.le; omega
   · have hi : v.size + 1 ≤ v.cap := by omega
     have g1 : Good v.blk v.cap L (({ v with size := v.size + 1 } : Vec α), L) :=
       ⟨⟨h.blk, h.len, hi⟩, Eff.refl _ _, Nat.le_refl _⟩
     exact Good.trans hp g1 (store_good _ _ _ _ g1.inv (by simp; omega))
+
+theorem pushAt_good (zero : α) (v : Vec α) (i : Nat) (L : Ledger) (h : v.Inv) (hi : i < v.size)
+    (hp : ∀ p, v.blk = some p → p < L.allocs) : Good v.blk v.cap L (pushAt zero v i L) := by
+  have h1 := h.len; have h2 := h.le
+  have hil : i < v.cells.length := by omega
+  simp only [pushAt, List.getElem?_eq_getElem hil]
+  exact pushCell_good zero v _ L h hp
 
 theorem write_good (v : Vec α) (i : Nat) (a : α) (L : Ledger) (h : v.Inv) (hi : i < v.size) :
     Good v.blk v.cap L (write v i a L) := by
@@ -277,51 +261,44 @@ end NmVerif.Containers
 namespace NmVerif.Containers
 variable {α : Type}
 
-/-- world invariant of the `utl::vector` machine; `z = false` additionally records that no live object has
-    capacity 0 and nothing was lost (histories without `vector(0)`) -/
-structure LInv (z : Bool) (w : World (Vec α)) : Prop where
+/-- world invariant of the `utl::vector` machine -/
+structure LInv (w : World (Vec α)) : Prop where
   objInv : ∀ k x, w.objs k = some x → x.Inv
-  owned : ∀ k x p, w.objs k = some x → x.blk = some p → p < w.led.allocs ∧ p ∉ w.led.freed ∧ p ∉ w.led.lost
+  owned : ∀ k x p, w.objs k = some x → x.blk = some p → p < w.led.allocs ∧ p ∉ w.led.freed
   distinct : ∀ k1 k2 x1 x2 p, k1 ≠ k2 → w.objs k1 = some x1 → w.objs k2 = some x2 → x1.blk = some p → x2.blk ≠ some p
   freedNodup : w.led.freed.Nodup
   freedLt : ∀ b ∈ w.led.freed, b < w.led.allocs
-  lostLt : ∀ b ∈ w.led.lost, b < w.led.allocs
-  accounted : ∀ b, b < w.led.allocs →
-    b ∈ w.led.freed ∨ b ∈ w.led.lost ∨ ∃ k x, w.objs k = some x ∧ x.blk = some b
+  accounted : ∀ b, b < w.led.allocs → b ∈ w.led.freed ∨ ∃ k x, w.objs k = some x ∧ x.blk = some b
   noEvents : w.led.events = []
-  capPos : z = false → ∀ k x, w.objs k = some x → 0 < x.cap
-  lostNil : z = false → w.led.lost = []
+  lostNil : w.led.lost = []
 
-theorem LInv.empty (z : Bool) : LInv z (World.empty : World (Vec α)) := by
+theorem LInv.empty : LInv (World.empty : World (Vec α)) := by
   constructor <;> simp [World.empty]
 
-theorem LInv.put {z : Bool} {w : World (Vec α)} (hw : LInv z w) (s : Nat) (x' : Vec α) (L' : Ledger)
+theorem LInv.put {w : World (Vec α)} (hw : LInv w) (s : Nat) (x' : Vec α) (L' : Ledger)
     (old : Option Nat) (c : Nat) (hold : old = (w.objs s).bind (·.blk))
-    (g : Vec.Good old c w.led (x', L')) (hcap : z = false → 0 < x'.cap) :
-    LInv z (w.put s (some x') L') := by
+    (g : Vec.Good old c w.led (x', L')) :
+    LInv (w.put s (some x') L') := by
   have geff : Eff old x'.blk w.led L' := g.eff
   have ginv : x'.Inv := g.inv
   obtain ⟨fs, hfs, hnd, hm, he⟩ := geff.freed
   have hmono := geff.mono
-  -- the old block of slot s is owned by slot s
   have hold' : ∀ p, old = some p → ∃ x, w.objs s = some x ∧ x.blk = some p := by
     intro p hp
     rw [hold] at hp
     cases hx : w.objs s with
     | none => simp [hx] at hp
     | some x => exact ⟨x, rfl, by simpa [hx] using hp⟩
-  have hold_lt : ∀ p, old = some p → p < w.led.allocs ∧ p ∉ w.led.freed ∧ p ∉ w.led.lost := by
+  have hold_lt : ∀ p, old = some p → p < w.led.allocs ∧ p ∉ w.led.freed := by
     intro p hp
     obtain ⟨x, hx, hb⟩ := hold' p hp
     exact hw.owned s x p hx hb
-  -- elements of fs are not owned by other slots
   have hfs_other : ∀ b ∈ fs, ∀ k x, k ≠ s → w.objs k = some x → x.blk ≠ some b := by
     intro b hb k x hk hx hxb
     rcases (hm b hb).1 with e | e
     · obtain ⟨y, hy, hyb⟩ := hold' b e.symm
       exact hw.distinct k s x y b hk hx hy hxb hyb
     · have := (hw.owned k x b hx hxb).1; omega
-  -- the new block is not owned by other slots
   have hnew_other : ∀ p, x'.blk = some p → ∀ k x, k ≠ s → w.objs k = some x → x.blk ≠ some p := by
     intro p hp k x hk hx hxb
     rcases geff.new_src with e | ⟨q, e, hq, hq'⟩
@@ -337,22 +314,21 @@ theorem LInv.put {z : Bool} {w : World (Vec α)} (hw : LInv z w) (s : Nat) (x' :
     · simp [hk] at hx; exact hw.objInv k x hx
   · intro k x p hx hp
     simp only [World.put] at hx ⊢
-    rw [hfs, geff.lost]
+    rw [hfs]
     by_cases hk : k = s
     · simp [hk] at hx; subst hx
       have hnf : p ∉ fs := fun hin => (hm p hin).2 hp.symm
       rcases geff.new_src with e | ⟨q, e, hq, hq'⟩
       · have := hold_lt p (by rw [← e]; exact hp)
-        exact ⟨by omega, by simp [hnf, this.2.1], this.2.2⟩
+        exact ⟨by omega, by simp [hnf, this.2]⟩
       · rw [hp] at e; cases e
-        refine ⟨hq', ?_, ?_⟩
-        · simp only [List.mem_append, hnf, false_or]
-          intro hin; have := hw.freedLt p hin; omega
-        · intro hin; have := hw.lostLt p hin; omega
+        refine ⟨hq', ?_⟩
+        simp only [List.mem_append, hnf, false_or]
+        intro hin; have := hw.freedLt p hin; omega
     · simp [hk] at hx
       have := hw.owned k x p hx hp
-      refine ⟨by omega, ?_, this.2.2⟩
-      simp only [List.mem_append, this.2.1, or_false]
+      refine ⟨by omega, ?_⟩
+      simp only [List.mem_append, this.2, or_false]
       intro hin; exact hfs_other p hin k x hk hx hp
   · intro k1 k2 x1 x2 p hne h1 h2 hp1 hp2
     simp only [World.put] at h1 h2
@@ -372,7 +348,7 @@ theorem LInv.put {z : Bool} {w : World (Vec α)} (hw : LInv z w) (s : Nat) (x' :
     intro a ha b hb hab
     subst hab
     rcases (hm a ha).1 with e | e
-    · exact (hold_lt a e.symm).2.1 hb
+    · exact (hold_lt a e.symm).2 hb
     · have := hw.freedLt a hb; omega
   · intro b hb
     simp only [World.put] at hb ⊢
@@ -384,39 +360,28 @@ theorem LInv.put {z : Bool} {w : World (Vec α)} (hw : LInv z w) (s : Nat) (x' :
     · have := hw.freedLt b h; omega
   · intro b hb
     simp only [World.put] at hb ⊢
-    rw [geff.lost] at hb
-    have := hw.lostLt b hb; omega
-  · intro b hb
-    simp only [World.put] at hb ⊢
-    rw [hfs, geff.lost]
+    rw [hfs]
     have key : (some b = old ∨ (w.led.allocs ≤ b ∧ b < L'.allocs)) →
-        b ∈ fs ++ w.led.freed ∨ b ∈ w.led.lost ∨ ∃ k x, (if k = s then some x' else w.objs k) = some x ∧ x.blk = some b := by
+        b ∈ fs ++ w.led.freed ∨ ∃ k x, (if k = s then some x' else w.objs k) = some x ∧ x.blk = some b := by
       intro h
       rcases he b h with e | e
-      · right; right; exact ⟨s, x', by simp, e.symm⟩
+      · right; exact ⟨s, x', by simp, e.symm⟩
       · left; exact List.mem_append.mpr (Or.inl e)
     by_cases hlt : b < w.led.allocs
-    · rcases hw.accounted b hlt with h | h | ⟨k, x, hx, hxb⟩
+    · rcases hw.accounted b hlt with h | ⟨k, x, hx, hxb⟩
       · left; exact List.mem_append.mpr (Or.inr h)
-      · right; left; exact h
       · by_cases hk : k = s
         · subst hk
           apply key; left
           rw [hold, hx]; simp [hxb]
-        · right; right; exact ⟨k, x, by simp [hk, hx], hxb⟩
+        · right; exact ⟨k, x, by simp [hk, hx], hxb⟩
     · exact key (Or.inr ⟨by omega, hb⟩)
   · simp only [World.put]; rw [geff.events]; exact hw.noEvents
-  · intro hz k x hx
-    simp only [World.put] at hx
-    by_cases hk : k = s
-    · simp [hk] at hx; subst hx; exact hcap hz
-    · simp [hk] at hx; exact hw.capPos hz k x hx
-  · intro hz
-    simp only [World.put]; rw [geff.lost]; exact hw.lostNil hz
+  · simp only [World.put]; rw [geff.lost]; exact hw.lostNil
 
 /-- `~vector()` on slot `s` -/
-theorem LInv.destroy {z : Bool} {w : World (Vec α)} (hw : LInv z w) (s : Nat) (x : Vec α) (hx : w.objs s = some x) :
-    LInv z (w.put s none (Vec.destroy x w.led)) := by
+theorem LInv.destroy {w : World (Vec α)} (hw : LInv w) (s : Nat) (x : Vec α) (hx : w.objs s = some x) :
+    LInv (w.put s none (Vec.destroy x w.led)) := by
   obtain ⟨p, hp⟩ := Option.isSome_iff_exists.mp (hw.objInv s x hx).blk
   have hown := hw.owned s x p hx hp
   have hobj : ∀ k y, (w.put s none (Vec.destroy x w.led)).objs k = some y → k ≠ s ∧ w.objs k = some y := by
@@ -425,121 +390,55 @@ theorem LInv.destroy {z : Bool} {w : World (Vec α)} (hw : LInv z w) (s : Nat) (
     by_cases hk : k = s
     · simp [hk] at hy
     · simp [hk] at hy; exact ⟨hk, hy⟩
-  by_cases hc : 0 < x.cap
-  · have hd : Vec.destroy x w.led = w.led.free p := by simp [Vec.destroy, hp, hc]
-    rw [hd]
-    constructor
-    · intro k y hy; exact hw.objInv k y (hobj k y hy).2
-    · intro k y q hy hq
-      obtain ⟨hk, hy'⟩ := hobj k y hy
-      have := hw.owned k y q hy' hq
-      refine ⟨this.1, ?_, this.2.2⟩
-      simp only [World.put, Ledger.free, List.mem_cons, not_or]
-      refine ⟨?_, this.2.1⟩
-      intro e; subst e
-      exact hw.distinct k s y x q hk hy' hx hq hp
-    · intro k1 k2 x1 x2 q hne h1 h2
-      exact hw.distinct k1 k2 x1 x2 q hne (hobj k1 x1 h1).2 (hobj k2 x2 h2).2
-    · simp only [World.put, Ledger.free, List.nodup_cons]; exact ⟨hown.2.1, hw.freedNodup⟩
-    · intro b hb
-      simp only [World.put, Ledger.free, List.mem_cons] at hb ⊢
-      rcases hb with e | h
-      · subst e; exact hown.1
-      · exact hw.freedLt b h
-    · exact hw.lostLt
-    · intro b hb
-      simp only [World.put, Ledger.free] at hb ⊢
-      rcases hw.accounted b hb with h | h | ⟨k, y, hy, hyb⟩
-      · left; exact List.mem_cons_of_mem _ h
-      · right; left; exact h
-      · by_cases hk : k = s
-        · subst hk; rw [hx] at hy; cases hy
-          rw [hp] at hyb; cases hyb
-          left; exact List.mem_cons_self
-        · right; right; exact ⟨k, y, by simp [hk, hy], hyb⟩
-    · exact hw.noEvents
-    · intro hz k y hy; exact hw.capPos hz k y (hobj k y hy).2
-    · exact hw.lostNil
-  · have hd : Vec.destroy x w.led = w.led.lose p := by simp [Vec.destroy, hp, hc]
-    have hz : z = true := by
-      cases z with
-      | true => rfl
-      | false => exact absurd (hw.capPos rfl s x hx) hc
-    rw [hd]
-    constructor
-    · intro k y hy; exact hw.objInv k y (hobj k y hy).2
-    · intro k y q hy hq
-      obtain ⟨hk, hy'⟩ := hobj k y hy
-      have := hw.owned k y q hy' hq
-      refine ⟨this.1, this.2.1, ?_⟩
-      simp only [World.put, Ledger.lose, List.mem_cons, not_or]
-      refine ⟨?_, this.2.2⟩
-      intro e; subst e
-      exact hw.distinct k s y x q hk hy' hx hq hp
-    · intro k1 k2 x1 x2 q hne h1 h2
-      exact hw.distinct k1 k2 x1 x2 q hne (hobj k1 x1 h1).2 (hobj k2 x2 h2).2
-    · exact hw.freedNodup
-    · exact hw.freedLt
-    · intro b hb
-      simp only [World.put, Ledger.lose, List.mem_cons] at hb ⊢
-      rcases hb with e | h
-      · subst e; exact hown.1
-      · exact hw.lostLt b h
-    · intro b hb
-      simp only [World.put, Ledger.lose] at hb ⊢
-      rcases hw.accounted b hb with h | h | ⟨k, y, hy, hyb⟩
-      · left; exact h
-      · right; left; exact List.mem_cons_of_mem _ h
-      · by_cases hk : k = s
-        · subst hk; rw [hx] at hy; cases hy
-          rw [hp] at hyb; cases hyb
-          right; left; exact List.mem_cons_self
-        · right; right; exact ⟨k, y, by simp [hk, hy], hyb⟩
-    · exact hw.noEvents
-    · intro h; rw [hz] at h; cases h
-    · intro h; rw [hz] at h; cases h
+  have hd : Vec.destroy x w.led = w.led.free p := by simp [Vec.destroy, hp]
+  rw [hd]
+  constructor
+  · intro k y hy; exact hw.objInv k y (hobj k y hy).2
+  · intro k y q hy hq
+    obtain ⟨hk, hy'⟩ := hobj k y hy
+    have := hw.owned k y q hy' hq
+    refine ⟨this.1, ?_⟩
+    simp only [World.put, Ledger.free, List.mem_cons, not_or]
+    refine ⟨?_, this.2⟩
+    intro e; subst e
+    exact hw.distinct k s y x q hk hy' hx hq hp
+  · intro k1 k2 x1 x2 q hne h1 h2
+    exact hw.distinct k1 k2 x1 x2 q hne (hobj k1 x1 h1).2 (hobj k2 x2 h2).2
+  · simp only [World.put, Ledger.free, List.nodup_cons]; exact ⟨hown.2, hw.freedNodup⟩
+  · intro b hb
+    simp only [World.put, Ledger.free, List.mem_cons] at hb ⊢
+    rcases hb with e | h
+    · subst e; exact hown.1
+    · exact hw.freedLt b h
+  · intro b hb
+    simp only [World.put, Ledger.free] at hb ⊢
+    rcases hw.accounted b hb with h | ⟨k, y, hy, hyb⟩
+    · left; exact List.mem_cons_of_mem _ h
+    · by_cases hk : k = s
+      · subst hk; rw [hx] at hy; cases hy
+        rw [hp] at hyb; cases hyb
+        left; exact List.mem_cons_self
+      · right; exact ⟨k, y, by simp [hk, hy], hyb⟩
+  · exact hw.noEvents
+  · exact hw.lostNil
 
-end NmVerif.Containers
-
-namespace NmVerif.Containers
-variable {α : Type}
-
-/-- domain of the ledger theorems: no aliasing `push_back(x[i])`; with `z = false` also no `vector(0)` -/
-def ledOk (z : Bool) : Op α → Prop
-  | .pushAt _ _ => False
-  | .ctorN _ n => z = true ∨ 0 < n
-  | _ => True
-
-theorem step_linv {z : Bool} {w : World (Vec α)} (hw : LInv z w) (op : Op α) (hok : ledOk z op) :
-    LInv z (step (vecImpl α) w op) := by
-  have hnone : ∀ p, (none : Option Nat) = some p → p < w.led.allocs := by intro p hp; cases hp
+theorem step_linv (zero : α) {w : World (Vec α)} (hw : LInv w) (op : Op α) : LInv (step (vecImpl zero) w op) := by
   cases op with
   | ctor s =>
     simp only [step]
     cases hx : w.objs s with
     | some x => exact hw
-    | none =>
-      exact hw.put s _ _ none 0 (by simp [hx]) (Vec.mkDefault_good w.led) (fun _ => by simp [vecImpl, Vec.mkDefault_cap])
+    | none => exact hw.put s _ _ none 0 (by simp [hx]) (Vec.mkDefault_good w.led)
   | ctorN s n =>
     simp only [step]
     cases hx : w.objs s with
     | some x => exact hw
-    | none =>
-      refine hw.put s _ _ none 0 (by simp [hx]) (Vec.mkSized_good n w.led) ?_
-      intro hz
-      simp only [ledOk] at hok
-      rcases hok with h | h
-      · rw [hz] at h; cases h
-      · simp [vecImpl, Vec.mkSized_eq]; exact h
+    | none => exact hw.put s _ _ none 0 (by simp [hx]) (Vec.mkSized_good zero n w.led)
   | ctorV s vs =>
     simp only [step]
     cases hx : w.objs s with
     | some x => exact hw
-    | none =>
-      refine hw.put s _ _ none 0 (by simp [hx]) (Vec.mkVariadic_good vs w.led) ?_
-      intro _
-      have := Vec.mkVariadic_cap vs w.led trivial
-      simp only [vecImpl]; omega
+    | none => exact hw.put s _ _ none 0 (by simp [hx]) (Vec.mkVariadic_good zero vs w.led)
   | copy d s =>
     simp only [step]
     cases hd : w.objs d with
@@ -547,11 +446,7 @@ theorem step_linv {z : Bool} {w : World (Vec α)} (hw : LInv z w) (op : Op α) (
     | none =>
       cases hs : w.objs s with
       | none => exact hw
-      | some y =>
-        refine hw.put d _ _ none 0 (by simp [hd]) (Vec.mkCopy_good y w.led (hw.objInv s y hs)) ?_
-        intro _
-        have := Vec.mkCopy_cap y w.led
-        simp only [vecImpl]; omega
+      | some y => exact hw.put d _ _ none 0 (by simp [hd]) (Vec.mkCopy_good zero y w.led (hw.objInv s y hs))
   | assign d s =>
     simp only [step]
     cases hd : w.objs d with
@@ -565,67 +460,51 @@ theorem step_linv {z : Bool} {w : World (Vec α)} (hw : LInv z w) (op : Op α) (
         by_cases hds : d = s
         · simp only [hds, if_true, vecImpl]
           subst hds
-          rw [Vec.assignSelf_eq x w.led hxi]
+          rw [Vec.assignSelf_eq zero x w.led hxi]
           exact hw.put d x w.led x.blk x.cap (by simp [hd]) ⟨hxi, Eff.refl _ _, Nat.le_refl _⟩
-            (fun hz => hw.capPos hz d x hd)
         · simp only [hds, if_false]
-          have g := Vec.assign_good x y w.led hxi (hw.objInv s y hs) hp
-          refine hw.put d _ _ x.blk x.cap (by simp [hd]) g ?_
-          intro hz
-          have := hw.capPos hz d x hd
-          have := g.cap
-          simp only [vecImpl]; omega
+          exact hw.put d _ _ x.blk x.cap (by simp [hd]) (Vec.assign_good zero x y w.led hxi (hw.objInv s y hs) hp)
   | push s a =>
     simp only [step]
     cases hx : w.objs s with
     | none => exact hw
     | some x =>
-      have hxi := hw.objInv s x hx
       have hp : ∀ p, x.blk = some p → p < w.led.allocs := fun p hp => (hw.owned s x p hx hp).1
-      have g := Vec.push_good x a w.led hxi hp
-      refine hw.put s _ _ x.blk x.cap (by simp [hx]) g ?_
-      intro hz
-      have := hw.capPos hz s x hx
-      have := g.cap
-      simp only [vecImpl]; omega
-  | pushAt s i => simp [ledOk] at hok
+      exact hw.put s _ _ x.blk x.cap (by simp [hx]) (Vec.pushCell_good zero x (some a) w.led (hw.objInv s x hx) hp)
+  | pushAt s i =>
+    simp only [step]
+    cases hx : w.objs s with
+    | none => exact hw
+    | some x =>
+      have hp : ∀ p, x.blk = some p → p < w.led.allocs := fun p hp => (hw.owned s x p hx hp).1
+      by_cases hi : i < x.size
+      · simp only [vecImpl, hi, if_true]
+        exact hw.put s _ _ x.blk x.cap (by simp [hx]) (Vec.pushAt_good zero x i w.led (hw.objInv s x hx) hi hp)
+      · simp only [vecImpl, hi, if_false]; exact hw
   | resize s n =>
     simp only [step]
     cases hx : w.objs s with
     | none => exact hw
     | some x =>
-      have hxi := hw.objInv s x hx
       have hp : ∀ p, x.blk = some p → p < w.led.allocs := fun p hp => (hw.owned s x p hx hp).1
-      have g := Vec.resize_good x n w.led hxi hp
-      refine hw.put s _ _ x.blk x.cap (by simp [hx]) g ?_
-      intro hz
-      have := hw.capPos hz s x hx
-      have := g.cap
-      simp only [vecImpl]; omega
+      exact hw.put s _ _ x.blk x.cap (by simp [hx]) (Vec.resize_good zero x n w.led (hw.objInv s x hx) hp)
   | write s i a =>
     simp only [step]
     cases hx : w.objs s with
     | none => exact hw
     | some x =>
-      have hxi := hw.objInv s x hx
       by_cases hi : i < x.size
-      · have g := Vec.write_good x i a w.led hxi hi
-        simp only [vecImpl, hi, if_true]
-        refine hw.put s _ _ x.blk x.cap (by simp [hx]) g ?_
-        intro hz
-        have := hw.capPos hz s x hx
-        have := g.cap
-        omega
+      · simp only [vecImpl, hi, if_true]
+        exact hw.put s _ _ x.blk x.cap (by simp [hx]) (Vec.write_good x i a w.led (hw.objInv s x hx) hi)
       · simp only [vecImpl, hi, if_false]; exact hw
   | read s i =>
     simp only [step]
     cases hx : w.objs s with
     | none => exact hw
     | some x =>
-      have hxi := hw.objInv s x hx
       by_cases hi : i < x.size
       · simp only [vecImpl, hi, if_true]
-        rw [Vec.read_ledger x i w.led hxi hi]
+        rw [Vec.read_ledger x i w.led (hw.objInv s x hx) hi]
         exact hw
       · simp only [vecImpl, hi, if_false]; exact hw
   | destroy s =>
@@ -634,12 +513,11 @@ theorem step_linv {z : Bool} {w : World (Vec α)} (hw : LInv z w) (op : Op α) (
     | none => exact hw
     | some x => exact hw.destroy s x hx
 
-theorem run_linv {z : Bool} (h : List (Op α)) {w : World (Vec α)} (hw : LInv z w) (hok : ∀ op ∈ h, ledOk z op) :
-    LInv z (run (vecImpl α) w h) := by
+theorem run_linv (zero : α) (h : List (Op α)) {w : World (Vec α)} (hw : LInv w) : LInv (run (vecImpl zero) w h) := by
   induction h generalizing w with
   | nil => exact hw
   | cons op h ih =>
     simp only [run]
-    exact ih (step_linv hw op (hok op List.mem_cons_self)) (fun o ho => hok o (List.mem_cons_of_mem _ ho))
+    exact ih (step_linv zero hw op)
 
 end NmVerif.Containers
